@@ -123,6 +123,20 @@ func fileForms(t *rapid.T, p jgen.Project) jgen.Project {
 			p.Units[i].Features = append(p.Units[i].Features, "crlf_line_ends")
 		}
 	}
+	// eighth seed batch: a character of two, three or four bytes that straddles the border of a read buffer (4096,
+	// 8192, 65536 bytes into the file): a block comment in front of the first token of line 1 (nothing below moves,
+	// no call stands on line 1) is padded so that the character starts one to three bytes before the border
+	for i := range p.Units {
+		if rapid.IntRange(0, 11).Draw(t, "multiByteAtBufferBorder") != 11 || strings.HasPrefix(p.Files[i].Text, "\n") || strings.HasPrefix(p.Files[i].Text, "\r") {
+			continue
+		}
+		border := rapid.SampledFrom([]int{4096, 8192, 8192, 65536}).Draw(t, "bufferBorder")
+		ch := rapid.SampledFrom([]string{"é", "€", "漢", "😀"}).Draw(t, "borderChar")
+		back := rapid.IntRange(1, len(ch)-1).Draw(t, "borderCharStartsBefore")
+		pad := border - back - len("/* ")
+		p.Files[i].Text = "/* " + strings.Repeat("x", pad) + ch + " " + strings.Repeat("€ y ", 40) + "*/" + p.Files[i].Text
+		p.Units[i].Features = append(p.Units[i].Features, "multi_byte_character_across_a_buffer_border")
+	}
 	return p
 }
 
